@@ -707,17 +707,30 @@ class Runner:
         # NOTE: decoding is incremental (one decoder for the whole stream) so
         # that a multi-byte character cut in two by a read boundary still
         # decodes as that character instead of a pair of replacement chars.
+        decoder: Optional[codecs.IncrementalDecoder]
         decoder = codecs.getincrementaldecoder(self.encoding)(errors="replace")
         while True:
             data = reader(self.read_chunk_size)
             if not data:
                 break
-            text = decoder.decode(data)
+            if decoder is not None:
+                held_back = decoder.getstate()[0]
+                try:
+                    text = decoder.decode(data)
+                except UnicodeError:
+                    # A few incremental decoders are pickier than one-shot
+                    # decoding (UTF-16/32 insist on a BOM): decode such
+                    # streams read by read, like `decode` always did.
+                    decoder = None
+                    data = held_back + data
+            if decoder is None:
+                text = self.decode(data)
             if text:
                 yield text
-        tail = decoder.decode(b"", final=True)
-        if tail:
-            yield tail
+        if decoder is not None:
+            tail = decoder.decode(b"", final=True)
+            if tail:
+                yield tail
 
     def write_our_output(self, stream: IO, string: str) -> None:
         """
